@@ -276,12 +276,45 @@ def nontriv_from(rep, items, tag):
 # C11 — IN endpoint
 # ======================================================================================================
 def in_eps(m):
-    return [{"kind": "in", "n": 1, "max": m}]
+    """The endpoint under test (IN 1) lives in a device that has other endpoints: a second stream IN endpoint and a
+    stream OUT endpoint (plus the standard control endpoint)."""
+    return [{"kind": "in", "n": 1, "max": m}, {"kind": "in", "n": 2, "max": 8},
+            {"kind": "out", "n": 1, "max": 8, "depth": 15}]
+
+
+OTHER_KINDS = ("in2", "out", "ctl")
+
+
+class Others:
+    """Complete transactions on OTHER endpoints (each ends with a handshake on the shared bus): IN on the second
+    stream endpoint with host ACK, OUT with device ACK, a control transfer.  Placed between a lost ACK on the focus
+    endpoint and its retry: the host's ACK of somebody else's packet must not be taken for ours."""
+
+    def __init__(self, seed=0):
+        self.otog = 0
+        self.v = seed & 0xFF
+
+    def txn(self, kind):
+        self.v = (self.v * 7 + 29) & 0xFF
+        if kind == "in2":
+            return [("feed", 2, [(self.v, True)]), ("idle", 3), ("in", 2, "ack")]
+        if kind == "out":           # short good packet, tracked toggle, consumer ready: clean class of C13
+            t = self.otog
+            self.otog ^= 1
+            return [("out", 1, t, [self.v], True), ("idle", 3)]
+        return [("setup", [0x80, 6, 0, 1, 0, 0, 18, 0]), ("ctl_in",), ("out", 0, 1, [], True)]
+
+    def some(self, rng):
+        ops = []
+        for _ in range(rng.choice([1, 1, 2])):
+            ops += self.txn(rng.choice(OTHER_KINDS))
+        return ops
 
 
 def gen_in_random(rng, m, transfers):
     """Random stream + host schedule for one IN endpoint with max packet size m."""
     ops = []
+    oth = Others(rng.randrange(256))
     total_packets = 0
     if rng.random() < 0.3:
         ops.append(("rate", 1, rng.choice([0.3, 0.6, 0.9])))
@@ -302,16 +335,16 @@ def gen_in_random(rng, m, transfers):
             if style < 0.55:
                 ops.append(("feed", 1, chunk))
                 ops.append(("idle", rng.choice([0, 1, 2, 3, m + 2])))
-                ops += in_polls(rng, rng.choice([0, 1, 1, 2]))
+                ops += in_polls(rng, rng.choice([0, 1, 1, 2]), oth)
             elif style < 0.8:
                 # bytes arrive while a transaction is on the wire
                 ops.append(("tok", "IN", 1))
                 ops.append(("feed", 1, chunk, rng.randint(0, 6)))
                 ops.append(("wait",))
-                ops.append(hs_op(rng))
+                ops += hs_ops(rng, oth)
             else:
                 ops.append(("feed", 1, chunk, rng.randint(0, 8)))
-                ops += in_polls(rng, 1)
+                ops += in_polls(rng, 1, oth)
             if rng.random() < 0.12:
                 ops.append(("flush", 1, 1))
                 ops.append(("idle", rng.randint(1, 4)))
@@ -323,22 +356,35 @@ def gen_in_random(rng, m, transfers):
     ops.append(("flush", 1, 0))
     ops.append(("idle", 4))
     for _ in range(total_packets // 2):
-        ops.append(("in", 1, "ack" if rng.random() < 0.85 else "lost"))
+        if rng.random() < 0.85:
+            ops.append(("in", 1, "ack"))
+        else:
+            ops.append(("in", 1, "lost"))
+            ops += oth.some(rng)
     ops.append(("end",))
     return ops
 
 
-def hs_op(rng):
+def hs_ops(rng, oth):
+    """host reaction to the data packet; after a missing ACK, often transactions on other endpoints before the retry"""
     x = rng.random()
-    return ("ack",) if x < 0.72 else ("noack", True) if x < 0.88 else ("noack", False)
+    if x < 0.72:
+        ops = [("ack",)]
+        if rng.random() < 0.15:
+            ops += oth.some(rng)
+        return ops
+    ops = [("noack", x < 0.88)]
+    if rng.random() < 0.6:
+        ops += oth.some(rng)
+    return ops
 
 
-def in_polls(rng, n):
+def in_polls(rng, n, oth):
     ops = []
     for _ in range(n):
         ops.append(("tok", "IN", 1))
         ops.append(("wait",))
-        ops.append(hs_op(rng))
+        ops += hs_ops(rng, oth)
         if rng.random() < 0.4:
             ops.append(("idle", rng.randint(1, 5)))
     return ops
@@ -348,37 +394,57 @@ def gen_in_structured(m):
     """Systematic sweep: every transfer length around packet multiples x position of a lost ACK x stall at the
     packet boundary."""
     out = []
+    betweens = [(), ("in2",), ("out",), ("ctl",), ("in2", "out"), ("out", "in2"), ("in2", "in2")]
     for ln in sorted({1, m - 1, m, m + 1, 2 * m - 1, 2 * m, 2 * m + 1} - {0}):
         for lost_at in (None, 0, 1, 2):
             for stall in (False, True):
-                data = [((7 * i + ln) & 0xFF, i == ln - 1) for i in range(ln)]
-                ops = []
-                if stall and ln > m:
-                    ops += [("feed", 1, data[:m]), ("idle", 6), ("in", 1, "lost" if lost_at == 0 else "ack"),
-                            ("feed", 1, data[m:]), ("idle", 2)]
-                    first = 1
+                # transactions on other endpoints between the un-ACKed packet and its retry: every kind for the
+                # lengths around one packet, rotating through the kinds otherwise
+                if lost_at is None:
+                    variants = [()]
+                elif ln in (m, m + 1) and not stall:
+                    variants = betweens
                 else:
-                    ops += [("feed", 1, data), ("idle", 2 * m + 4)]
-                    first = 0
-                for i in range(first, ln // m + 3):
-                    ops.append(("in", 1, "lost" if lost_at == i else "ack"))
-                    if lost_at == i:
-                        ops.append(("in", 1, "bad"))
-                        ops.append(("in", 1, "ack"))
-                # a second transfer follows immediately (toggle continuity, ZLP then data)
-                ops += [("feed", 1, [(0xA5, False), (0x5A, True)]), ("idle", 3), ("in", 1, "ack"), ("in", 1, "ack"),
-                        ("in", 1, "ack"), ("end",)]
-                out.append((ops, {"gen": "structured", "len": ln, "lost_at": lost_at, "stall": stall}))
+                    variants = [betweens[(len(out) + 1) % len(betweens)]]
+                for between in variants:
+                    oth = Others(ln + len(out))
+                    data = [((7 * i + ln) & 0xFF, i == ln - 1) for i in range(ln)]
+                    ops = []
+                    if stall and ln > m:
+                        ops += [("feed", 1, data[:m]), ("idle", 6), ("in", 1, "lost" if lost_at == 0 else "ack")]
+                        if lost_at == 0:
+                            for kind in between:
+                                ops += oth.txn(kind)
+                        ops += [("feed", 1, data[m:]), ("idle", 2)]
+                        first = 1
+                    else:
+                        ops += [("feed", 1, data), ("idle", 2 * m + 4)]
+                        first = 0
+                    for i in range(first, ln // m + 3):
+                        ops.append(("in", 1, "lost" if lost_at == i else "ack"))
+                        if lost_at == i:
+                            for kind in between:
+                                ops += oth.txn(kind)
+                            ops.append(("in", 1, "bad"))
+                            for kind in between[:1]:
+                                ops += oth.txn(kind)
+                            ops.append(("in", 1, "ack"))
+                    # a second transfer follows immediately (toggle continuity, ZLP then data)
+                    ops += [("feed", 1, [(0xA5, False), (0x5A, True)]), ("idle", 3), ("in", 1, "ack"),
+                            ("in", 1, "ack"), ("in", 1, "ack"), ("end",)]
+                    out.append((ops, {"gen": "structured", "len": ln, "lost_at": lost_at, "stall": stall,
+                                      "between": between}))
     return out
 
 
 def gen_in_timing(m):
     """Systematic offset sweeps: the stream event that completes the next packet (MaxPkt-th byte, `last` on a short
     packet, `last` on the MaxPkt-th byte) or a one-cycle flush pulse falls d = 0..15 cycles after the start of
-    (a) the host's ACK of the previous packet, (b) the IN token, (c) a lost ACK followed by the retry token.
+    (a) the host's ACK of the previous packet, (b) the IN token, (c) a lost ACK followed by the retry token,
+    (d) a lost ACK followed by a complete transaction on another endpoint (IN+host ACK / OUT+device ACK) and the retry.
     Every trace ends with the quiescence record (`end`), so accepted-but-never-sent data is rejected."""
     out = []
-    for where in ("ack", "tok", "retry"):
+    for where in ("ack", "tok", "retry", "retry_in2", "retry_out"):
         for shape in ("full", "full_last", "short", "flush"):
             for delay in range(0, 16):
                 first = [((3 * i + delay) & 0xFF, False) for i in range(m)]
@@ -395,15 +461,24 @@ def gen_in_timing(m):
                     ops += ev + [("tok", "IN", 1), ("wait",), ("ack",)]
                 elif where == "ack":
                     ops += [("tok", "IN", 1), ("wait",)] + ev + [("ack",)]
-                else:
+                elif where == "retry":
                     ops += [("tok", "IN", 1), ("wait",)] + ev + [("noack", True), ("in", 1, "ack")]
+                else:
+                    # lost ACK, a complete transaction on another endpoint (its handshake is on the shared bus), then
+                    # the retry; the stream event is swept over that foreign transaction
+                    oth = Others(delay)
+                    txn = oth.txn("in2" if where == "retry_in2" else "out")
+                    pre = [o for o in txn if o[0] in ("feed",)]
+                    bus = [o for o in txn if o[0] not in ("feed",)]
+                    ops += [("tok", "IN", 1), ("wait",), ("noack", True)] + pre + ev + bus + [("in", 1, "ack")]
                 ops += [("idle", 3), ("end",)]
                 out.append((ops, {"gen": "timing", "where": where, "shape": shape, "delay": delay}))
     return out
 
 
-def beh_to_script_in(beh):
+def beh_to_script_in(beh, rng=None):
     ops = []
+    oth = Others(len(beh))
     pending_tok = False
     for _, st in beh[1:]:
         ev = st["ev"]
@@ -421,6 +496,8 @@ def beh_to_script_in(beh):
             pending_tok = False
         elif e == "hs":
             ops.append(("ack",) if ev["ack"] else ("noack", ev["hostrx"]))
+            if not ev["ack"] and rng is not None and rng.random() < 0.5:
+                ops += oth.some(rng)
     if pending_tok:
         ops.append(("wait",))
     ops += [("idle", 2), ("end",)]
@@ -449,8 +526,8 @@ def gen_mgr_random(rng, m, transfers):
                 npk += 1
             for _ in range(rng.choice([0, 1, 1, 2])):
                 ops.append(("in", rng.choice(["ack", "ack", "ack", "lost", "bad"]), rng.randint(1, 3), rng.randint(0, 3)))
-                if rng.random() < 0.2:
-                    ops.append(("other_tok",))
+                if rng.random() < 0.3:
+                    ops.append(rng.choice([("other_tok",), ("other_txn",), ("other_txn",)]))
             if rng.random() < 0.4:
                 ops.append(("idle", rng.randint(1, m + 3)))
     ops.append(("idle", 3))
@@ -519,14 +596,14 @@ def check_C11(rep):
         behs = tlc.simulate(SPEC_DIR, "MCEpIn", tlc.render_cfg(_cfg("MCEpIn_sim.cfg.tmpl"), b),
                             num=50 if quick else 400, depth=70, seed=rep.seed * 11 + m)
         for i, beh in enumerate(behs):
-            jobs.append({"eps": in_eps(m), "script": beh_to_script_in(beh), "seed": rep.seed + i,
+            jobs.append({"eps": in_eps(m), "script": beh_to_script_in(beh, rep.rng), "seed": rep.seed + i,
                          "meta": {"gen": "tlc-simulate", "max": m}})
     for m in ((2, 4) if quick else (2, 3, 4, 8)):
         for ops, meta in gen_in_structured(m):
             jobs.append({"eps": in_eps(m), "script": ops, "seed": rep.seed, "meta": dict(meta, max=m)})
     for m in ((2, 3) if quick else (2, 3, 4, 8)):
         for ops, meta in gen_in_timing(m):
-            if quick and m == 3 and meta["where"] != "ack":
+            if quick and m == 3 and meta["where"] not in ("ack", "retry_in2"):
                 continue
             jobs.append({"eps": in_eps(m), "script": ops, "seed": rep.seed, "meta": dict(meta, max=m)})
     rnd = [(2, 10), (3, 8), (4, 8), (8, 8), (16, 4), (64, 2)] if quick else \
